@@ -249,7 +249,14 @@ def c09(tier, seed):
     return res.finish()
 
 
-def crash_check(pid, tier, seed, fams=None, what=None, desc=None, during=None, mc=None, proto=None):
+def mproto_shards(seed, q):
+    """Merge at protocol grain: hook-recorded data-file mutations of key/value histories with merges, validated by MergeTrace.tla
+    (every step of the real Merge is the next action of Merge.tla; MidMergeSafe / MergePreserves on every state it produced)."""
+    fams = [("mergeproto", ["-mode", "keyval", "-rw", "fileio"]), ("mergeproto", ["-mode", "keyonly", "-rw", "mmap"])]
+    return [["%mod=MergeTrace"] + a for a in fam_shards(fams, seed + 5, 1 if q else 6, 3 if q else 4, 40 if q else 90)]
+
+
+def crash_check(pid, tier, seed, fams=None, what=None, desc=None, during=None, mc=None, proto=None, mproto=False):
     res = Result(pid, tier, seed)
     core.build()
     q = tier == "quick"
@@ -259,6 +266,8 @@ def crash_check(pid, tier, seed, fams=None, what=None, desc=None, during=None, m
     shards = fam_shards([(f, a + extra) for f, a in fams], seed, 1 if q else 4, 2, 12 if q else 16)
     # conformance of the commit protocol itself: hook-recorded file mutations of ordinary histories against Commit.tla
     shards += [["%proto"] + a for a in fam_shards(proto or [], seed + 3, 1 if q else 8, 3, 30 if q else 80)]
+    if mproto:
+        shards += mproto_shards(seed, q)
     rs = core.drive_and_validate(res, shards, core.dev_set(), what, desc)
     res.cov["samples"] = [dict(e, o="...") for e in core.sample_events(rs[0]["trace"], 5, ops={"crash"})]
     res.cov["distinct_nontrivial"] = res.extra.get("nontrivial", {}).get("crash_images", 0)
@@ -306,15 +315,15 @@ def c11(tier, seed):
 
 def c16(tier, seed):
     res = crash_check("C16", tier, seed, mc=lambda res, q: (
-        merge_mc(res, "Merge(kv)", inv=["TypeOK", "Agree", "MergeCrashSafe"], consts=None if q else {"MaxUser": "6"}),
+        merge_mc(res, "Merge(kv)", inv=["TypeOK", "Agree", "MergeCrashSafe", "MidMergeSafe"], consts=None if q else {"MaxUser": "6"}),
         merge_mc(res, "Merge+Lists(F-C16-1)", consts={"Sw": '{"Lists"}'}, inv=["MergeCrashSafe"], expect="MergeCrashSafe"),
         merge_mc(res, "Merge+DelayedRewrite", consts={"Sw": '{"DelayedRewrite"}'}, inv=["MergeCrashSafe"], expect="MergeCrashSafe")),
         fams=
                       [("crashmergekv", ["-mode", "keyval", "-rw", "fileio"]), ("crashmergekv", ["-mode", "keyonly", "-rw", "mmap"]),
                        ("crashmergekv", ["-mode", "keyonly", "-rw", "fileio"]), ("crashmergeds", []), ("crashmerge", []),
-                       ("crashmergemany", ["-mode", "keyval", "-hist", "1", "-steps", "40"])],
+                       ("crashmergemany", ["-mode", "keyval", "-hist", "1", "-steps", "40"])], mproto=True,
                       what="after a crash inside Merge the reopened database differs from the contents before Merge (or Open failed)",
-                      desc="workloads with Merge calls; a crash at every file mutation inside Merge (rewrites, creations, removals; torn writes)")
+                      desc="workloads with Merge calls; a crash at every file mutation inside Merge (rewrites, creations, removals; torn writes); and the file mutations of real merges as steps of Merge.tla (MergeTrace)")
     return res.finish()
 
 
@@ -603,7 +612,7 @@ def c15(tier, seed):
     merge_mc(res, "Merge+RewriteUncommitted", consts={"Sw": '{"RewriteUncommitted"}'}, inv=["MergePreserves"], expect="MergePreserves")
     merge_mc(res, "Merge+ActiveRemoved", consts={"Sw": '{"ActiveRemoved"}'}, inv=["WriteDurable"], expect="WriteDurable")
     fams = [("mergekv", ["-mode", "keyval"]), ("mergekv", ["-mode", "keyonly"]), ("mergeds", []), ("merge", [])]
-    shards = fam_shards(fams, seed, 2 if q else 20, 3 if q else 4, 40 if q else 100)
+    shards = fam_shards(fams, seed, 2 if q else 20, 3 if q else 4, 40 if q else 100) + mproto_shards(seed, q)
     rs = core.drive_and_validate(res, shards, core.dev_set(), "a read (in the process or after reopen) changed across Merge, or a write after Merge was lost",
                                  "histories with Merge at random quiescent points (twice in a row, with injected I/O faults, with too few files), more writes, shadow and real reopens")
     res.cov["samples"] = core.sample_events(rs[0]["trace"], 4, ops={"merge"})
@@ -670,6 +679,30 @@ def selftest(tier, seed):
     if os.path.exists(p1):
         expect_reject("sync-event-removed", p1, "CommitTrace", drop_sync, "  SyncOn = TRUE\n")
         expect_reject("commit-mark-on-first-record", p1, "CommitTrace", move_mark, "  SyncOn = TRUE\n")
+    # Merge at protocol grain: a rewritten record dropped from the recording, and a removal recorded before its rewrite
+    mp = os.path.join(work, "mp.ndjson")
+    core.drive(["-family", "mergeproto", "-mode", "keyval", "-rw", "fileio", "-seed", str(seed), "-hist", "1", "-steps", "60",
+                "-out", mp, "-summary", os.path.join(work, "s2.json"), "-tmp", work])
+
+    def drop_rewritten(evs):
+        i = [k for k, e in enumerate(evs) if e.get("op") == "mhalf" and len(e["recs"]) >= 1][0]
+        evs[i]["recs"] = evs[i]["recs"][:-1]
+        return i + 1, evs
+
+    def remove_before_rewrite(evs):
+        i = [k for k, e in enumerate(evs) if e.get("op") == "mhalf"][0]
+        j = [k for k, e in enumerate(evs) if e.get("op") == "mremove" and k > i][0]
+        evs = evs[:i] + [evs[j]] + evs[i:j] + evs[j + 1:]
+        return i + 1, evs
+
+    def stale_value_served(evs):
+        i = [k for k, e in enumerate(evs) if e.get("op") == "obs" and e["so"]][2]
+        evs[i]["so"][0]["v"] += "~"
+        return i + 1, evs
+
+    expect_reject("rewritten-record-missing", mp, "MergeTrace", drop_rewritten)
+    expect_reject("file-removed-before-rewrite", mp, "MergeTrace", remove_before_rewrite)
+    expect_reject("reopened-copy-differs", mp, "MergeTrace", stale_value_served)
     return 0 if ok else 2
 
 
